@@ -15,6 +15,19 @@ import (
 //       getting through the authentication process.
 // TODO We should handle stream error from XEP-0114 ( <conflict/> or <host-unknown/> )
 func InitStream(p *xml.Decoder) (sessionID string, err error) {
+	return initStream(p, true, true)
+}
+
+// InitStreamTCP reads the opening of a stream over TCP: only <stream:stream> opens it there.
+func InitStreamTCP(p *xml.Decoder) (sessionID string, err error) { return initStream(p, true, false) }
+
+// InitStreamFraming reads the opening of a stream over WebSocket: only the <open/> of RFC 7395 opens it there
+// (section 3.3: the <stream:stream> of the TCP binding must not be used).
+func InitStreamFraming(p *xml.Decoder) (sessionID string, err error) {
+	return initStream(p, false, true)
+}
+
+func initStream(p *xml.Decoder, acceptStream, acceptOpen bool) (sessionID string, err error) {
 	for {
 		var t xml.Token
 		t, err = p.Token()
@@ -24,8 +37,8 @@ func InitStream(p *xml.Decoder) (sessionID string, err error) {
 
 		switch elem := t.(type) {
 		case xml.StartElement:
-			isStreamOpen := elem.Name.Space == NSStream && elem.Name.Local == "stream"
-			isFrameOpen := elem.Name.Space == NSFraming && elem.Name.Local == "open"
+			isStreamOpen := acceptStream && elem.Name.Space == NSStream && elem.Name.Local == "stream"
+			isFrameOpen := acceptOpen && elem.Name.Space == NSFraming && elem.Name.Local == "open"
 			if !isStreamOpen && !isFrameOpen {
 				err = errors.New("xmpp: expected <stream> or <open> but got <" + elem.Name.Local + "> in " + elem.Name.Space)
 				return sessionID, err
